@@ -108,7 +108,10 @@ func Regenerate(repoDir string, corpora []Corpus) (*Result, error) {
 		return nil, err
 	}
 	defer os.RemoveAll(tmp)
-	env := load.Env()
+	// the generator dumps output it cannot parse into os.TempDir(): keep that inside the scratch directory
+	scratchTmp := filepath.Join(tmp, "tmp")
+	os.MkdirAll(scratchTmp, 0o755)
+	env := append(load.Env(), "TMPDIR="+scratchTmp)
 	cff := filepath.Join(tmp, "cff")
 	if out, err := run(repoDir, env, "go", "build", "-o", cff, "./cmd/cff"); err != nil {
 		return nil, fmt.Errorf("building cff from %s: %v: %s", repoDir, err, out)
